@@ -103,6 +103,13 @@ pub trait Backend {
     fn s_counts_guarded(s: &Self::S, n: usize, subs: &[&Self::Sub]) -> (usize, usize, usize, usize);
     fn u_count_guarded(u: &Self::U, subs: &[&Self::Sub]) -> usize;
     fn s_downgrade(s: &Self::S) -> Self::W;
+    /// Async flavour: poll `sub` while a write guard taken through `s` is alive; returns the poll
+    /// result, the counts read under the guard and the counts read after its release. None: not
+    /// available (sync flavour: the thread would block on its own guard) or the guard was not granted.
+    #[allow(clippy::type_complexity)]
+    fn s_poll_under_write(_s: &Self::S, _sub: &mut Self::Sub, _kind: PollKind, _cx: &mut Context<'_>) -> Option<(Poll<Option<OV>>, (usize, usize, usize, usize), (usize, usize, usize, usize))> {
+        None
+    }
 
     fn w_upgrade(w: &Self::W) -> Option<Self::S>;
     fn w_clone(w: &Self::W) -> Self::W;
@@ -478,6 +485,14 @@ impl Backend for AsyncB {
     fn u_count_guarded(u: &Self::U, subs: &[&Self::Sub]) -> usize {
         let _sg: Vec<_> = subs.iter().filter_map(|x| now(x.read())).collect();
         Self::u_subscriber_count(u)
+    }
+    fn s_poll_under_write(s: &Self::S, sub: &mut Self::Sub, kind: PollKind, cx: &mut Context<'_>) -> Option<(Poll<Option<OV>>, (usize, usize, usize, usize), (usize, usize, usize, usize))> {
+        let g = s.try_write()?;
+        let r = Self::sub_poll(sub, kind, cx);
+        let held = Self::s_counts(s);
+        drop(g);
+        let after = Self::s_counts(s);
+        Some((r, held, after))
     }
     fn s_downgrade(s: &Self::S) -> Self::W {
         s.downgrade()
